@@ -102,7 +102,7 @@ func TestC05(t *testing.T) {
 	}
 	run.Count("exhaustive_arrangements_len_le_2", int64(idx))
 	// (b) generated programs with panicking handlers at every position, scripts, nesting
-	n := run.Scale(1500, 30000)
+	n := run.Scale(1500, 150000)
 	pf := []prog.Profile{
 		{MinTypes: 1, MaxTypes: 3, MinOps: 10, MaxOps: 40, Async: true, Scripts: true, Panics: true},
 		{MinTypes: 1, MaxTypes: 2, MinOps: 8, MaxOps: 25, Async: true, Panics: true, FewClasses: true, Cancels: true},
